@@ -96,7 +96,8 @@ def oracle(s, r):
 def cases_for(tier):
     if tier == "thorough":
         return ol.lattice([5, 6, 7, 8, 9, 11, 13, 17], [4, 8, 12, 16, 20, 24, 32], "geo,A11,X", tier,
-                          cycle_offsets=(0, 1, 2), extra={"tlist": "1,3"})
+                          cycle_offsets=(0, 1, 2), extra={"tlist": "1,3"}) + \
+            ol.full_block([5, 7, 8], [4, 8, 12], "geo,A11,X", tier, extra={"tlist": "1,3"})
     return ol.lattice([5, 6, 7, 8, 9, 11], [4, 8, 12, 16], "geo,A11,X", tier, cycle_offsets=(0, 1), extra={"tlist": "1,3"})
 
 
@@ -111,10 +112,13 @@ def main(tier):
             tot[k] = max(tot.get(k, 0.0), v) if (k.startswith("worst") or k.startswith("max")) else tot.get(k, 0) + v
         nontriv.add((s["nr"], s["nt"], s["circles"], s["dirbc"], s["geom"], s["alpha"], s["beta"], s["rpat"], s["tpat"]))
         for key, what, extra in viols:
-            rp = {"case": s["line"], "summary": ol.spec_summary(s)}
+            rp = ol.replay_record(s)
             rp.update(extra)
             rep.violation(key, what + "  [case %s]" % json.dumps(ol.spec_summary(s)), rp)
+    hist_cov = ol.history_block(binary, [c for c in cases if not c["id"].startswith("f")], rep, n=(12 if tier == "thorough" else 8))
     cov = {
+        "full_product_block_cases": sum(1 for c in cases if c["id"].startswith("f")),
+        "full_product_block_rule": ol.FULL_BLOCK_RULE,
         "states": len(results), "transitions": int(tot.get("columns", 0)),
         "traces_validated_against_impl": int(tot.get("columns", 0)),
         "evaluations": len(results), "distinct_nontrivial": len(nontriv),
@@ -128,6 +132,7 @@ def main(tier):
         "samples": [ol.spec_summary(s) for s, _, _ in results[:3]],
         "exhaustive": True,
     }
+    cov.update(hist_cov)
     return rep.finish(cov, ["linearity: the solver's action on all unit vectors is the solver",
                             "assembly under several threads is judged in C11/C12"])
 
@@ -138,23 +143,4 @@ def replay(path):
 
 def _replay(path, modname, pid):
     rp = json.load(open(path))["replay"]
-    spec = ol.CaseSpec(rp.get("summary", {}))
-    spec["id"] = rp["case"].split()[0].split("=")[1]
-    spec["line"] = rp["case"]
-    for k in ("nr", "nt", "circles", "dirbc", "geom", "alpha", "beta", "rpat", "tpat"):
-        spec.setdefault(k, "?")
-    binary = _build()
-    outs = []
-    for _ in range(2):
-        res = ol.run_cases(binary, [spec], modname, "oracle")
-        outs.append(sorted((k, w) for _, v, _ in res for (k, w, _) in v))
-    if [k for k, _ in outs[0]] != [k for k, _ in outs[1]]:
-        print("replay is not deterministic; refusing to report")
-        return 2
-    for k, w in outs[0]:
-        print("  [%s] %s" % (k, w))
-    if outs[0]:
-        print("VIOLATION property=%s replay=%s" % (pid, path))
-        return 1
-    print("replay: property held")
-    return 0
+    return ol.replay_cases(_build(), rp, modname, pid, path)
